@@ -198,8 +198,17 @@ type Wire struct {
 func (r *Result) ToWire() *Wire {
 	r.mu.Lock()
 	defer r.mu.Unlock()
-	w := &Wire{Evals: r.evals, Samples: r.samples, Counters: r.counters, Sets: map[string][]string{}, Violations: r.violations,
-		ViolBySig: r.violBySig, Notes: r.Notes, Exhaustive: r.Exhaustive, Subspaces: r.Subspaces, Inconclusive: r.Inconclusive, Done: true}
+	// copies: the result may be flushed while other goroutines keep recording
+	counters := make(map[string]int64, len(r.counters))
+	for k, v := range r.counters {
+		counters[k] = v
+	}
+	bySig := make(map[string]int, len(r.violBySig))
+	for k, v := range r.violBySig {
+		bySig[k] = v
+	}
+	w := &Wire{Evals: atomic.LoadInt64(&r.evals), Samples: append([]interface{}{}, r.samples...), Counters: counters, Sets: map[string][]string{}, Violations: append([]Violation{}, r.violations...),
+		ViolBySig: bySig, Notes: append([]string{}, r.Notes...), Exhaustive: r.Exhaustive, Subspaces: append([]string{}, r.Subspaces...), Inconclusive: append([]string{}, r.Inconclusive...), Done: true}
 	for h := range r.nontrivial {
 		w.Nontrivial = append(w.Nontrivial, h)
 	}
